@@ -30,7 +30,8 @@ def frame_forms():
     """(label, python frame object, index list)"""
     return [('ellipsis', ..., list(range(T))), ('slice', slice(1, 4), [1, 2, 3]), ('slice0', slice(None, 3), [0, 1, 2]), ('step', slice(0, 6, 2), [0, 2, 4]),
             ('list', [0, 2, 3], [0, 2, 3]), ('list-unordered', [4, 1], [4, 1]), ('array', np.array([5, 1, 2]), [5, 1, 2]), ('point', 2, [2]), ('full-slice', slice(0, 6), list(range(6))),
-            ('list-contiguous-descending', [3, 2, 1, 0], [3, 2, 1, 0]), ('list-contiguous-unordered', [3, 5, 4], [3, 5, 4])]
+            ('list-contiguous-descending', [3, 2, 1, 0], [3, 2, 1, 0]), ('list-contiguous-unordered', [3, 5, 4], [3, 5, 4]),
+            ('range-negative', range(-4, 0), [T - 4, T - 3, T - 2, T - 1]), ('range-descending', range(3, -1, -1), [3, 2, 1, 0]), ('slice-negative', slice(-4, -1), [T - 4, T - 3, T - 2])]          # (an open-ended slice is refused at construction: not offered)
 
 
 # value palettes per dtype: python ints given as dyadics (m, e)
@@ -127,13 +128,16 @@ def combos(chk, rng):
             if len(i2) == len(i1) and o1 is not ... and o2 is not ...:      # point-to-point needs two explicit frames (Ellipsis is refused at construction)
                 confs.append(('same', o2, i2, 0))
         for mode, o2, i2, d in confs:
-            for op in (ops if chk.tier != 'quick' else [ops[k % 4], ops[(k + 1) % 4]]):
+            same2 = mode == 'same' and o2 is not None and list(i2) != list(i1)        # point-to-point over two DIFFERENT frames: always with a centred product on a given mean
+            for op in (ops if chk.tier != 'quick' else sorted({ops[k % 4], ops[(k + 1) % 4]} | ({'centered_product'} if same2 else set()))):
                 k += 1
                 dt = dts[k % len(dts)]
+                if same2 and op == 'centered_product':
+                    dt = ['uint8', 'int16', 'float32'][k % 3]
                 rows, drows = rows_for(rng, dt, 3, op)
                 mean = None
                 if op == 'centered_product':
-                    if dt in ('uint8', 'int8', 'int16', 'float32') and k % 2:
+                    if dt in ('uint8', 'int8', 'int16', 'float32') and (k % 2 or same2):
                         mean = [rng.randint(-3, 3) for _ in range(T)] if k % 4 == 1 else [rng.randint(100, 120) for _ in range(T)]
                     else:
                         continue            # batch-mean centring is checked in first_order (documented batch dependence)
